@@ -356,10 +356,13 @@ class LineFailpoint:
         self.abort_at = abort_at
         self.lines = 0
         self.fired = None
+        self.pid = os.getpid()
 
     def _line(self, code, lineno):
         mon = sys.monitoring
-        if not code.co_filename.endswith(self.suffixes):
+        if not code.co_filename.endswith(self.suffixes) or os.getpid() != self.pid:
+            # (a worker process forked while the failpoint is armed inherits it: it must never fire there - a pool whose
+            # worker dies waits for ever)
             return mon.DISABLE
         self.lines += 1
         if self.abort_at is not None and self.lines == self.abort_at and self.fired is None:
